@@ -675,7 +675,18 @@ bool SPxLPBase<Rational>::readLPF(
                }
 
                have_value = true;
-               val = LPFreadValue(pos, spxout, lineno);
+
+               if(LPFisInfinity(pos))
+               {
+                  /* non-finite coefficients are not allowed; an infinite side is (as in the floating-point reader) */
+                  if(sense == 0)
+                     goto syntax_error;
+
+                  val = LPFreadInfinity(pos);
+               }
+               else
+                  val = LPFreadValue(pos, spxout, lineno);
+
                val *= pre_sign;
 
                if(sense != 0)
